@@ -9,7 +9,10 @@ def handle (line : String) : String :=
   | none =>
     match Rq.DriverE3.handle w with
     | some r => r
-    | none => "bad-request"
+    | none =>
+      match Rq.DriverK.handle w with
+      | some r => r
+      | none => "bad-request"
 
 partial def loop (hin hout : IO.FS.Stream) : IO Unit := do
   let line ← hin.getLine
